@@ -1,5 +1,6 @@
 (* Correspondence entry point for C05.
-   request = (0 ops (rmode smode))      a history in the encoding of Run/StoreRun.v; the final store is
+   request = (0 ops (rmode smode))      a history in the encoding of Run/StoreRun.v, plus (9) = save now (the
+                                       store is written, flagged stand-off files are flushed); the final store is
                                        viewed as a document store: identifiers "r3" "s1" "a0" "k2" "d5",
                                        texts as harness/src/storegen.rs text_of_len; rmode / smode say
                                        which resources / datasets are kept in stand-off files
@@ -260,24 +261,37 @@ Definition view (s : store) (rmode smode : nat) : dstore :=
     (map (option_map (fun a => mkdann (option_map (id_str KAnn) (a_id a)) (a_data a) (a_kind a)
                                       (map (view_leaf s) (a_leaves a)))) (anns s)).
 
+(** * histories with intermediate saves: (9) writes the store (and flushes the stand-off files) *)
+Definition want_files (s : store) (rm sm : nat) : files :=
+  match canon (view s rm sm) with Some c => side_files c | None => [] end.
+
+Definition sop_of_sx (o : sx) : sop sx := if Z.eqb (sx_Z (sx_nth 0 o)) 9 then SSave else SMod o.
+Definition run_saves (ops : list sx) (s : store) (st : fstate) (rm sm : nat) : store * fstate :=
+  save_run (fun s o => fst (step s (op_of_sx o))) (fun s => want_files s rm sm) (map sop_of_sx ops) s st.
+
 (** * the run *)
 Definition sx_enc (d : json * files) : sx := L [nsx_of_json (fst d); sx_files (snd d)].
 
 Definition run_C05 (x : sx) : sx :=
-  let s := match sx_Z (sx_nth 0 x) with
-           | 0%Z => view (run (map op_of_sx (sx_list (sx_nth 1 x))))
-                         (sx_nat (sx_nth 0 (sx_nth 2 x))) (sx_nat (sx_nth 1 (sx_nth 2 x)))
-           | _ => dstore_of_sx (sx_nth 1 x)
-           end in
+  let hist := Z.eqb (sx_Z (sx_nth 0 x)) 0 in
+  let rm := sx_nat (sx_nth 0 (sx_nth 2 x)) in
+  let sm := sx_nat (sx_nth 1 (sx_nth 2 x)) in
+  let '(s0, st0) := if hist then run_saves (sx_list (sx_nth 1 x)) empty_store (mkfs [] []) rm sm
+                    else (empty_store, mkfs [] []) in
+  let s := if hist then view s0 rm sm else dstore_of_sx (sx_nth 1 x) in
   let wf := triple (of_bool (wf_dstore s)) (A 1) 0 in
   match canon s with
   | None => L [wf; triple (A 0) (A 0) 0]
   | Some c =>
       let d := encode_c c in
+      (* the final save: a literal store is new (every stand-off member is flagged) *)
+      let st1 := if hist then st0 else mark [] (snd d) st0 in
+      let disk := fs_disk (flush (snd d) st1) in
       let o := sx_cstore c in
       let t := nsx_of_json (fst d) in
-      let f := sx_files (snd d) in
-      let s' := decode d in
+      let f := sx_files disk in
+      let fspec := sx_files (rewrite_all (snd d) (fs_disk st1)) in
+      let s' := decode (fst d, disk) in
       let back := match s' with
                   | Some s1 => match canon s1 with Some c1 => sx_cstore c1 | None => A 0 end
                   | None => A 0
@@ -290,6 +304,6 @@ Definition run_C05 (x : sx) : sx :=
                                 end
                    | None => false
                    end in
-      L [wf; triple o o 0; triple t t 0; triple t t 0; triple f f 0; triple back o 0; triple lay lay 0;
+      L [wf; triple o o 0; triple t t 0; triple t t 0; triple f fspec 0; triple back o 0; triple lay lay 0;
          triple (L [A 1; of_bool again; of_bool again; of_bool again]) (L [A 1; A 1; A 1; A 1]) 0]
   end.
